@@ -283,9 +283,22 @@ class BadDict(dict):
         return dict.__getitem__(self, k)
 
 
+class ZeroLen(objs.Obj):
+    """falsy (len() == 0) although it has attribute children"""
+    def __len__(self):
+        return 0
+
+
+class FalseBool(objs.Obj):
+    def __bool__(self):
+        return False
+
+
 def side_targets():
     inner = {'a': 1}
     return {
+        'falsy-objects-with-children': {'a': ZeroLen(a=1, k={'a': 2}), 'b': [FalseBool(a=3), ZeroLen()], 'c': FalseBool(k=ZeroLen(a=[4]))},
+        'falsy-object-root': ZeroLen(a={'a': 1}, b=FalseBool(a=2)),
         'str-leaves': {'a': 'xyz', 'b': ['pq', {'a': 'r'}]},
         'singleton-set': {'a': {5}, 'b': [frozenset(['q'])]},
         'shared-twice': [inner, inner, {'a': inner}],
